@@ -67,7 +67,12 @@ class BackendDecisionStream(Stream):
         inq2 = dict(inq, action='a+b')
         fz = {'checker': 'CFuzzy', 'policies': [pol('p0', 'allow', 'a+b aab'), pol('p1', 'deny', 'xa+by')],
               'inquiry': inq2, 'rxtable': []}
-        return [dict(base, config='sqlite'), dict(base, config='mongo42'), dict(base, config='memory'),
+        # a store larger than any paging window: the enfolding cache is populated by pages of 1000
+        big = {'checker': 'CExact', 'inquiry': inq, 'rxtable': [],
+               'policies': [pol('p%04d' % i, 'deny' if i == 700 else 'allow', 'a' if i in (0, 700) else 'zz')
+                            for i in range(1040)]}
+        return [dict(big, config='enfold_sqlite'),
+                dict(base, config='sqlite'), dict(base, config='mongo42'), dict(base, config='memory'),
                 dict(fz, config='mongo42'), dict(fz, config='sqlite')]
 
     def grid(self):
@@ -190,6 +195,8 @@ class BackendDecisionStream(Stream):
 
     def shrink(self, c):
         ps = c['policies']
+        if len(ps) > 40:
+            return          # the big-store case is what it is (each candidate would reload a thousand policies)
         for i in range(len(ps)):
             if len(ps) > 1:
                 yield dict(c, policies=ps[:i] + ps[i + 1:])
@@ -215,7 +222,7 @@ ASSUME = ['MySQL/Postgres/Oracle regex engines and collations, real MongoDB quer
 
 def main(argv):
     return run_check('C07', [BackendDecisionStream()], argv, trusted_base=TRUSTED, assumptions=ASSUME,
-                     translated=('sql', 'pin_sql', 'pin_mongo', 'pin_redis', 'memory', 'guard', 'checker'))
+                     translated=('sql', 'sqlmodel', 'storage_abc', 'enfold', 'redis', 'mongo', 'memory', 'guard', 'checker', 'parser', 'pin_sql', 'pin_mongo', 'pin_redis', 'pin_rules', 'pin_util'))
 
 
 if __name__ == '__main__':
